@@ -610,6 +610,27 @@ func (a *MaxValueArg) Parse() error {
 	return nil
 }
 
+// isRangeBoundary checks a single boundary of a range or length argument:
+// min / max / integer-value / decimal-value.
+func isRangeBoundary(b string) bool {
+	if b == "min" || b == "max" {
+		return true
+	}
+	if i := strings.Index(b, "."); i >= 0 {
+		frac := b[i+1:]
+		if len(frac) == 0 {
+			return false
+		}
+		for j := 0; j < len(frac); j++ {
+			if frac[j] < '0' || frac[j] > '9' {
+				return false
+			}
+		}
+		b = b[:i]
+	}
+	return isYangInteger(b, true)
+}
+
 type argRb struct {
 	Min, Max   bool
 	Start, End string
@@ -626,11 +647,6 @@ func (a *RangeArg) Parse() error {
 	str := string(a.arg)
 	ErrInval := errors.New("invalid argument: " + str)
 
-	/* collapse string */
-	str = strings.Replace(str, " ", "", -1)
-	str = strings.Replace(str, "\t", "", -1)
-	str = strings.Replace(str, "\n", "", -1)
-
 	/* range-part *(optsep "|" optsep range-part) */
 	rparts := strings.Split(str, "|")
 	a.rbs = make([]argRb, 0, len(rparts))
@@ -638,6 +654,13 @@ func (a *RangeArg) Parse() error {
 		/* range-boundary [optsep ".." optsep range-boundary] */
 		var r argRb
 		rbs := strings.Split(v, "..")
+		for i := range rbs {
+			/* optsep is only allowed around the boundaries */
+			rbs[i] = strings.Trim(rbs[i], " \t\r\n")
+			if !isRangeBoundary(rbs[i]) {
+				return ErrInval
+			}
+		}
 		switch len(rbs) {
 		case 1:
 			switch rbs[0] {
@@ -684,11 +707,6 @@ func (a *LengthArg) Parse() error {
 	str := string(a.arg)
 	ErrInval := errors.New("invalid argument: " + str)
 
-	/* collapse string */
-	str = strings.Replace(str, " ", "", -1)
-	str = strings.Replace(str, "\t", "", -1)
-	str = strings.Replace(str, "\n", "", -1)
-
 	/* length-part *(optsep "|" optsep length-part) */
 	lparts := strings.Split(str, "|")
 	a.lbs = make([]Lb, 0, len(lparts))
@@ -698,6 +716,13 @@ func (a *LengthArg) Parse() error {
 		var i uint64
 		var e error
 		bs := strings.Split(v, "..")
+		for i := range bs {
+			/* optsep is only allowed around the boundaries */
+			bs[i] = strings.Trim(bs[i], " \t\r\n")
+			if bs[i] != "min" && bs[i] != "max" && !isYangInteger(bs[i], false) {
+				return ErrInval
+			}
+		}
 		switch len(bs) {
 		case 1:
 			switch bs[0] {
@@ -706,7 +731,7 @@ func (a *LengthArg) Parse() error {
 			case "min":
 				l.Min = true
 			default:
-				i, e := strconv.ParseUint(bs[0], 0, 64)
+				i, e := strconv.ParseUint(bs[0], 10, 64)
 				if e != nil {
 					return e
 				}
@@ -718,7 +743,7 @@ func (a *LengthArg) Parse() error {
 			case "min":
 				l.Min = true
 			default:
-				i, e = strconv.ParseUint(bs[0], 0, 64)
+				i, e = strconv.ParseUint(bs[0], 10, 64)
 				if e != nil {
 					return e
 				}
@@ -728,7 +753,7 @@ func (a *LengthArg) Parse() error {
 			case "max":
 				l.Max = true
 			default:
-				i, e = strconv.ParseUint(bs[1], 0, 64)
+				i, e = strconv.ParseUint(bs[1], 10, 64)
 				if e != nil {
 					return e
 				}
